@@ -321,7 +321,17 @@ func (w *Worker) Report(c *Case, res *Result) {
 	mc, mres, n := Minimise(w.T, w.Prop, &ec, sig, 300)
 	st.MinimiseRuns += n
 	f.MinFrom = fmt.Sprintf("choices=%d plan=%dB", len(res.Choices), len(c.Plan))
-	f.Viol = mres.Viol
+	if mres.Viol != nil {
+		f.Viol = mres.Viol
+	} else {
+		// not reproducible inside this process (the violation depends on
+		// process-global state, e.g. gob's type registry): report the case as
+		// first observed
+		mc = &ec
+		keep := *res
+		keep.Log = append([]string{"NOTE: the violation did not recur when the case was re-executed in the same process; replay it in a fresh process"}, keep.Log...)
+		mres = &keep
+	}
 	path := filepath.Join(w.replayDir, fmt.Sprintf("%s-%d-%d-%d.json", w.Prop.ID, st.Seed, st.Worker, len(w.found)))
 	if err := WriteReplay(path, mc, mres); err != nil {
 		st.ToolErrs = append(st.ToolErrs, "write replay: "+err.Error())
